@@ -1,6 +1,12 @@
 (* Proofs/CommitDirs2Run.v -- the invariant YInv (CommitDirs2Y.v) along every run of a
-   program, for previous caches without records ([norec]: hit_norec / sbhit_norec of
-   ViewXRun.v make the lock-count invariant XInv unconditional there).
+   program.
+   GENERAL FORM ([run_Y_for], section RunY): for a class [ok] of previous caches, RELATIVE TO
+     - ViewXSetup.hit_statement_for ok, ViewXRun.sbhit_statement_for ok  (what the lock-count
+       invariant XInv itself needs at a cache lookup: NOT proved for arbitrary caches), and
+     - their analogues for YInv, [ytry_statement] / [ysb_statement] below (YInv across the
+       lookup/reuse/claim block of build_file and across the setup of subbuild).
+   UNCONDITIONAL INSTANCE ([run_Y], section NorecY): previous caches without records
+   ([norec]: hit_norec / sbhit_norec of ViewXRun.v, [ytry_norec] / [ysb_norec] here).
    At every state the proof has at hand
      - ViewXFail.RInv T w      (XInv T w, PInv T w, no faults)          from ViewXRun.run_RInv,
      - FInv / EInv              (RollbackDirs.. / CommitDirs..)           from CommitDirsRun.run_G,
@@ -28,7 +34,6 @@ Variable X : list path.
 Hypothesis HypA : forall a t, Tgt old cf P t -> below a t = true -> ~ P a.
 Hypothesis HS : forall a t, Tgt old cf P t -> below a t = true -> notorig fs0 a.
 Hypothesis Hwf0 : fs_wf fs0.
-Hypothesis Hnorec : norec old.
 
 Notation RX := ViewXFail.RInv.
 Notation RI := (RollbackDirsLaws.RInv fs0 old cf P).
@@ -44,8 +49,6 @@ Proof. intros w w' E1 E2 H. unfold YInv, Nn in *. rewrite E1, E2. exact H. Qed.
 Lemma FI_old : forall w, FI w -> w_old w = old.
 Proof. intros w ((_ & H & _) & _). exact H. Qed.
 
-Lemma FI_norec : forall w, FI w -> norec (w_old w).
-Proof. intros w H. rewrite (FI_old _ H). exact Hnorec. Qed.
 
 Lemma FI_C1 : forall w, FI w -> forall a, in_counts (w_bd w) a = true -> lookup (w_fs w) a = Some NDir.
 Proof. intros w (_ & (_ & _ & _ & _ & C1)) a Ha. exact (proj1 (C1 a Ha)). Qed.
@@ -200,6 +203,54 @@ Proof.
   - intro Hr. unfold isdir. rewrite (Hgone Hr). reflexivity.
 Qed.
 
+(* ------------------------------------------------------------------ what is assumed of cache lookups *)
+(* YInv across the lookup / reuse / claim block of build_file, started in the world in which
+   the target has just been reserved; when the block raises, the file invariant and the
+   BuildDirs bookkeeping invariant still hold (they are needed to release the reservation) *)
+Definition ytry_statement : Prop :=
+  forall t T n d c f sa skw w wc rt, P (n :: d) -> n :: d <> cf ->
+    RX ((n :: d) :: T) w -> FI w -> EI w -> tcond t w -> gcond t w -> YI w ->
+    cache_has_file (w_new w) (n :: d) = false -> isdir (w_fs w) (n :: d) = false ->
+    bf_try (n :: d) c f sa skw w = (wc, rt) ->
+    YI wc /\ (forall e, rt = inr e -> RI wc /\ bdZ (w_bd wc)).
+
+(* YInv across the setup of subbuild *)
+Definition ysb_statement : Prop :=
+  forall t T f sa skw w w1 r, RX T w -> FI w -> EI w -> tcond t w -> gcond t w -> YI w ->
+    sb_setup f sa skw w = (w1, r) -> YI w1.
+
+Variable ok : cache -> Prop.
+Hypothesis Hok : ok old.
+Hypothesis HH : hit_statement_for ok.
+Hypothesis HSb : sbhit_statement_for ok.
+Hypothesis HYtry : ytry_statement.
+Hypothesis HYsb : ysb_statement.
+
+Lemma FI_ok : forall w, FI w -> ok (w_old w).
+Proof. intros w H. rewrite (FI_old _ H). exact Hok. Qed.
+
+(* the setup of subbuild keeps FInv / EInv (as inside CommitDirsRun.m_subbuild_G) *)
+Lemma sb_setup_GR : forall t f sa skw, pres (GP t) (sb_setup f sa skw).
+Proof.
+  intros t f sa skw. unfold sb_setup. cbv zeta.
+  apply pres_bind; [apply G_view; apply new_assert_no_subbuild_view|]. intros _.
+  apply (pres_bind_valG fs0 old cf P X t _ _ _ _
+         (fun cached => match cached with Some co => forall x, In x (op_targets co) -> Tgt old cf P x | None => True end)).
+  - apply G_view. apply subbuild_cache_lookup_view.
+  - intros w0 w1 x ((_ & B & _) & _) E. destruct x as [co|]; [|exact I].
+    apply sublookup_never_raised in E. destruct E as (E & _). rewrite B in E.
+    intros y Hy. right. right. eapply subs_get_targets; eauto.
+  - intros cached Hc. destruct cached as [co|].
+    + apply pres_bind; [apply (apply_cached_subs_of_G fs0 old cf P X HypA HS co Hc t)|]. intros _.
+      apply pres_bind.
+      * intros w w' r H. unfold attempt in H.
+        destruct (new_use_cached_operation (OSubbuild f sa skw (op_subs co) (op_ret co) false false) w) as [w2 r2] eqn:E.
+        inversion H; subst w' r. refine (new_use_cached_operation_G fs0 old cf P X HypA t _ _ _ _ _ E).
+        intros q Hq. cbn [op_targets] in Hq. apply Hc. apply subs_targets_incl. exact Hq.
+      * intro r. destruct r; apply pres_ret.
+    + apply pres_bind; [apply new_start_subbuild_G | intros _; apply pres_ret].
+Qed.
+
 (* ------------------------------------------------------------------ everything before the function *)
 Lemma bf_setup_Y : forall t T p c f sa skw w w1 r, P p ->
   RX T w -> FI w -> EI w -> tcond t w -> gcond t w -> YI w ->
@@ -270,31 +321,24 @@ Proof.
   assert (Hnd_b : isdir (w_fs w3) (n :: d) = false).
   { unfold isdir. rewrite Fsb; [exact Hnd|]. intro Hs. apply suffix_length in Hs. simpl in Hs. lia. }
   unfold catch in H. destruct (bf_try (n :: d) c f sa skw w3) as [wc rt] eqn:Et.
-  pose proof (hit_norec T n d c f sa skw w3 wc rt (FI_norec _ F3) HRb Hunc_b Hnd_b Et) as Post.
-  (* without records the attempt is the claim *)
-  assert (Ecl : bf_claim (n :: d) w3 = (wc, rt)).
-  { unfold bf_try in Et. apply bind_inv in Et. rewrite (lookup_norec _ _ _ _ _ (FI_norec _ F3)) in Et.
-    destruct Et as [[wa [cached [E9 Et]]]|[e [E9 _]]]; [|discriminate E9]. inversion E9; subst wa cached.
-    cbn [bf_reuse] in Et. apply bind_inv in Et. destruct Et as [[wa [reused [E5 Et]]]|[e [E5 _]]]; [|discriminate E5].
-    inversion E5; subst wa reused. exact Et. }
-  destruct (bf_claim_frame _ _ _ _ Ecl HFb Hnd_b) as (Tc1 & Tc2 & Tc3).
-  assert (HYc : YI wc) by (exact (Y_target_step ((n :: d) :: T) w3 wc (n :: d) HXb (or_introl eq_refl) HY3 Tc1 Tc2 Tc3)).
+  pose proof (HH T n d c f sa skw w3 wc rt (FI_ok _ F3) HRb Hunc_b Hnd_b Et) as Post.
+  destruct (HYtry t T n d c f sa skw w3 wc rt HPp Ncf HRb F3 Ew3 T3 G3 HY3 Hunc_b Hnd_b Et) as [HYc Herr].
   destruct rt as [x|e].
   - inversion H; subst. exact HYc.
   - destruct Post as (HRc & Hnf & Hnp). destruct HRc as (HXc & HPc & HFc).
-    destruct (bf_claim_G fs0 old cf P X t (n :: d) HPp Ncf _ _ _ Ecl F3 Ew3 T3 G3) as (Fc & _ & Ewc & _).
+    destruct (Herr e eq_refl) as [Rc Zc].
     destruct (m_bd_error_XInv ((n :: d) :: T) wc n d HXc (or_introl eq_refl) Hnf) as (b' & Eb & HXe).
     apply bind_inv in H. rewrite Eb in H. destruct H as [[wd [u2 [E5 H]]]|[e' [E5 _]]]; [|discriminate E5].
     inversion E5; subst wd u2. inversion H; subst w1 r.
     assert (Ebd : bd_error (w_bd wc) (n :: d) = Some b').
     { unfold m_bd_error in Eb. destruct (bd_error (w_bd wc) (n :: d)) as [b|]; [|discriminate Eb].
       inversion Eb as [K]. congruence. }
-    exact (Y_bd_error fs0 old cf P Hwf0 ((n :: d) :: T) wc n d b' HXc HPc (or_introl eq_refl) Hnf (proj1 Fc) (EI_Z _ Ewc) HYc Ebd HXe).
+    exact (Y_bd_error fs0 old cf P Hwf0 ((n :: d) :: T) wc n d b' HXc HPc (or_introl eq_refl) Hnf Rc Zc HYc Ebd HXe).
 Qed.
 
 (* ------------------------------------------------------------------ build_file *)
 Lemma m_build_file_Y : forall t T p c f a kw (fn : path -> pyval -> pyval -> body) w w' res, P p ->
-  (forall sa skw T0 w0 w1 r, norec (w_old w0) -> RX T0 w0 -> In p T0 -> fn p sa skw w0 = (w1, r) ->
+  (forall sa skw T0 w0 w1 r, ok (w_old w0) -> RX T0 w0 -> In p T0 -> fn p sa skw w0 = (w1, r) ->
      exists T1, RX T1 w1 /\ msub T0 T1) ->
   (forall sa skw, pres (GP (Some p)) (fn p sa skw)) ->
   (forall sa skw T0 w0 w1 r, RX T0 w0 -> In p T0 -> FI w0 -> EI w0 -> tcond (Some p) w0 -> gcond (Some p) w0 ->
@@ -308,7 +352,7 @@ Proof.
   destruct (sanitize kw) as [skw|]; [|inversion H; subst; exact HY].
   destruct (BuildFileLaws.bf_setup p c f sa skw w) as [w1 r1] eqn:Es.
   pose proof (bf_setup_Y t T p c f sa skw w w1 r1 HPp HR Fw Ew Tw Gw HY Es) as HY1.
-  pose proof (bf_setup_RInv norec mkfail_holds hit_norec T p c f sa skw w w1 r1 (FI_norec _ Fw) HR Es) as Post.
+  pose proof (bf_setup_RInv ok mkfail_holds HH T p c f sa skw w w1 r1 (FI_ok _ Fw) HR Es) as Post.
   unfold setup_post in Post.
   destruct r1 as [[[o|[e o]]|]|e]; try (inversion H; subst; exact HY1).
   destruct Post as (HR1 & Hprog & Hne & Hold).
@@ -324,7 +368,7 @@ Proof.
   change (set_log (LInvoke f (Some p) sa skw :: w_log w1) w1) with (bf_invoke_world p f sa skw w1) in Fi, Ewi.
   assert (HYi : YI (bf_invoke_world p f sa skw w1)) by (apply (YI_ext w1); [reflexivity | reflexivity | exact HY1]).
   pose proof (HfnY sa skw (p :: T) _ _ _ HRi (or_introl eq_refl) Fi Ewi Ti Gi HYi Ef) as HY3.
-  destruct (HfnR sa skw (p :: T) _ _ _ (FI_norec _ Fi) HRi (or_introl eq_refl) Ef) as (T1 & HR3 & M1).
+  destruct (HfnR sa skw (p :: T) _ _ _ (FI_ok _ Fi) HRi (or_introl eq_refl) Ef) as (T1 & HR3 & M1).
   destruct (HfnG sa skw _ _ _ Ef Fi Ewi Ti Gi) as (F3 & L3 & Ew3 & S3).
   destruct p as [|n d]; [contradiction|].
   assert (Hin : In (n :: d) T1) by (apply (msub_in _ _ _ M1); left; reflexivity).
@@ -335,30 +379,6 @@ Proof.
 Qed.
 
 (* ------------------------------------------------------------------ subbuild *)
-Lemma sb_setup_norec_cases : forall f sa skw w w1 r, norec (w_old w) -> sb_setup f sa skw w = (w1, r) ->
-  (w1 = w \/ exists x, new_start_subbuild (subbuild_key f sa skw) w = (w1, x)) /\
-  (r = inl None \/ exists e, r = inr e).
-Proof.
-  intros f sa skw w w1 r Hok H. unfold sb_setup in H. cbv zeta in H.
-  apply bind_inv in H. destruct H as [[wa [u [E H]]]|[e [E Er]]].
-  2:{ unfold new_assert_no_subbuild, bind, get in E. destruct (cache_has_subbuild (w_new w) _); inversion E; subst.
-      split; [left; reflexivity | right; eauto]. }
-  assert (wa = w).
-  { unfold new_assert_no_subbuild, bind, get in E. destruct (cache_has_subbuild (w_new w) _); inversion E; reflexivity. }
-  subst wa. apply bind_inv in H. rewrite (sublookup_norec _ _ _ Hok) in H.
-  destruct H as [[wa [cached [E1 H]]]|[e [E1 _]]]; [|discriminate E1]. inversion E1; subst wa cached.
-  apply bind_inv in H. destruct H as [[wb [u' [E2 H]]]|[e [E2 Er]]].
-  - inversion H; subst. split; [right; eauto | left; reflexivity].
-  - subst r. split; [right; eauto | right; eauto].
-Qed.
-
-Lemma new_start_subbuild_fsbd : forall k w w1 x, new_start_subbuild k w = (w1, x) ->
-  w_fs w1 = w_fs w /\ w_bd w1 = w_bd w.
-Proof.
-  intros k w w1 x H. unfold new_start_subbuild, new_assert_no_subbuild, bind, get, modify in H.
-  destruct (cache_has_subbuild (w_new w) k); cbn in H; inversion H; subst; auto.
-Qed.
-
 Lemma m_subbuild_Y : forall t T f a kw (fn : pyval -> pyval -> body) w w' res,
   (forall sa skw T0 w0 w1 r, RX T0 w0 -> FI w0 -> EI w0 -> tcond t w0 -> gcond t w0 -> YI w0 ->
      fn sa skw w0 = (w1, r) -> YI w1) ->
@@ -370,17 +390,12 @@ Proof.
   destruct (sanitize a) as [sa|]; [|inversion H; subst; exact HY].
   destruct (sanitize kw) as [skw|]; [|inversion H; subst; exact HY].
   destruct (sb_setup f sa skw w) as [w1 r1] eqn:Es.
-  destruct (sbhit_norec T f sa skw w w1 r1 (FI_norec _ Fw) HR Es) as (T1 & HR1 & M1 & Hold).
-  destruct (sb_setup_norec_cases _ _ _ _ _ _ (FI_norec _ Fw) Es) as [Hw1 Hr1].
-  assert (K1 : YI w1 /\ FI w1 /\ EI w1 /\ tcond t w1 /\ gcond t w1).
-  { destruct Hw1 as [->|[x Ex]]; [auto|].
-    destruct (new_start_subbuild_fsbd _ _ _ _ Ex) as [A1 A2].
-    destruct (new_start_subbuild_G fs0 old cf P X t _ _ _ _ Ex Fw Ew Tw Gw) as (F1 & L1 & Ew1 & S1).
-    split; [apply (YI_ext w); assumption|]. split; [exact F1|]. split; [exact Ew1|]. split.
-    - intros q Hq. apply L1, Tw, Hq.
-    - eapply gcond_stable; eauto. }
-  destruct K1 as (HY1 & F1 & Ew1 & T1c & G1c).
-  destruct Hr1 as [->|[e ->]]; [|inversion H; subst; exact HY1].
+  destruct (HSb T f sa skw w w1 r1 (FI_ok _ Fw) HR Es) as (T1 & HR1 & M1 & Hold).
+  pose proof (HYsb t T f sa skw w w1 r1 HR Fw Ew Tw Gw HY Es) as HY1.
+  destruct (sb_setup_GR t f sa skw _ _ _ Es Fw Ew Tw Gw) as (F1 & L1 & Ew1 & S1).
+  assert (T1c : tcond t w1) by (intros q Hq; apply L1, Tw, Hq).
+  assert (G1c : gcond t w1) by (eapply gcond_stable; eauto).
+  destruct r1 as [[[o|[e o]]|]|e]; try (inversion H; subst; exact HY1).
   unfold sb_rebuild in H.
   destruct (fn sa skw (sb_invoke_world f sa skw w1)) as [w3 [res3 subs3]] eqn:Ef.
   assert (HRi : RX T1 (sb_invoke_world f sa skw w1)) by (eapply RInv_fields; [exact HR1|..]; reflexivity).
@@ -403,7 +418,7 @@ Proof.
 Qed.
 
 (* ------------------------------------------------------------------ every program *)
-Theorem run_Y : forall pr, AllTargets P pr ->
+Theorem run_Y_for : forall pr, AllTargets P pr ->
   forall target subs T w w' res,
     RX T w -> FI w -> EI w -> tcond target w -> gcond target w ->
     (forall p, target = Some p -> In p T) -> YI w ->
@@ -453,10 +468,10 @@ Proof.
   - destruct s; [eapply IHk; eauto|].
     match type of H with (let '(_, _) := ?Z in _) = _ => destruct Z as [w1 [r1 o]] eqn:E end.
     pose proof (fun sa skw => run_G fs0 old cf P X HypA HS _ (Hfn p sa skw) (Some p) []) as HfnG.
-    assert (HfnR : forall sa skw T0 w0 w2 r, norec (w_old w0) -> RX T0 w0 -> In p T0 ->
+    assert (HfnR : forall sa skw T0 w0 w2 r, ok (w_old w0) -> RX T0 w0 -> In p T0 ->
               run (fn p sa skw) (Some p) [] w0 = (w2, r) -> exists T1, RX T1 w2 /\ msub T0 T1).
     { intros sa skw T0 w0 w2 r Hok0 HR0 Hin Hf.
-      eapply (run_RInv norec mkfail_holds hit_norec sbhit_norec); [exact Hok0 | exact HR0 | | exact Hf].
+      eapply (run_RInv ok mkfail_holds HH HSb); [exact Hok0 | exact HR0 | | exact Hf].
       intros p0 Hp0. inversion Hp0; subst. exact Hin. }
     assert (HY1 : YI w1).
     { apply (m_build_file_Y target T p c f a kw (fun p' sa skw w0 => run (fn p' sa skw) (Some p') [] w0) w w1 (r1, o) Hp
@@ -464,9 +479,9 @@ Proof.
       intros sa skw T0 w0 w2 r HR0 Hin F0 E0 T0c G0c HY0 Hf.
       eapply (IHfn p sa skw (Some p) [] T0); [exact HR0|exact F0|exact E0|exact T0c|exact G0c| |exact HY0|exact Hf].
       intros p0 Hp0. inversion Hp0; subst. exact Hin. }
-    destruct (m_build_file_RInv norec mkfail_holds hit_norec T p c f a kw
+    destruct (m_build_file_RInv ok mkfail_holds HH T p c f a kw
                 (fun p' sa skw w0 => run (fn p' sa skw) (Some p') [] w0) w w1 (r1, o)) as (T1 & HR1 & M1);
-      [|exact (FI_norec _ Fw)|exact HR|exact E|].
+      [|exact (FI_ok _ Fw)|exact HR|exact E|].
     { intros sa skw T0 w0 w2 r Hok0 HR0 Hin Hf. exact (HfnR sa skw T0 w0 w2 r Hok0 HR0 Hin Hf). }
     destruct (m_build_file_G fs0 old cf P X HypA HS p c f a kw _ Hp HfnG target _ _ _ E Fw Ew Tw Gw) as (F1 & L1 & Ew1 & S1).
     eapply (IHk r1 target _ T1 w1); [exact HR1 | exact F1 | exact Ew1 | | | | exact HY1 | exact H].
@@ -483,10 +498,10 @@ Proof.
       intros sa skw T0 w0 w2 r HR0 F0 E0 _ _ HY0 Hf.
       eapply (IHfn sa skw None [] T0); [exact HR0|exact F0|exact E0| | | |exact HY0|exact Hf];
         intros p0 Hp0; discriminate Hp0. }
-    destruct (m_subbuild_RInv norec sbhit_norec T f a kw (fun sa skw w0 => run (fn sa skw) None [] w0) w w1 (r1, o))
-      as (T1 & HR1 & M1); [|exact (FI_norec _ Fw)|exact HR|exact E|].
+    destruct (m_subbuild_RInv ok HSb T f a kw (fun sa skw w0 => run (fn sa skw) None [] w0) w w1 (r1, o))
+      as (T1 & HR1 & M1); [|exact (FI_ok _ Fw)|exact HR|exact E|].
     { intros sa skw T0 w0 w2 r Hok0 HR0 Hf.
-      eapply (run_RInv norec mkfail_holds hit_norec sbhit_norec); [exact Hok0 | exact HR0 | | exact Hf].
+      eapply (run_RInv ok mkfail_holds HH HSb); [exact Hok0 | exact HR0 | | exact Hf].
       intros p0 Hp0. discriminate Hp0. }
     destruct (m_subbuild_G fs0 old cf P X HypA HS f a kw _ target HfnG _ _ _ E Fw Ew Tw Gw) as (F1 & L1 & Ew1 & S1).
     eapply (IHk r1 target _ T1 w1); [exact HR1 | exact F1 | exact Ew1 | | | | exact HY1 | exact H].
@@ -497,4 +512,89 @@ Qed.
 
 End RunY.
 
+(* ================================================================== *)
+(* Previous caches without records: everything is unconditional        *)
+(* ================================================================== *)
+Section NorecY.
+
+Variable fs0 : fsT.
+Variable old : cache.
+Variable cf : path.
+Variable P : path -> Prop.
+Variable X : list path.
+Hypothesis HypA : forall a t, Tgt old cf P t -> below a t = true -> ~ P a.
+Hypothesis HS : forall a t, Tgt old cf P t -> below a t = true -> notorig fs0 a.
+Hypothesis Hwf0 : fs_wf fs0.
+Hypothesis Hnorec : norec old.
+
+Notation RX := ViewXFail.RInv.
+Notation FI := (FInv fs0 old cf P X).
+Notation EI := (EInv fs0 old cf P).
+Notation YI := (YInv fs0 cf).
+
+Lemma FI_norec : forall w, FI w -> norec (w_old w).
+Proof. intros w H. rewrite (FI_old fs0 old cf P X _ H). exact Hnorec. Qed.
+
+Lemma sb_setup_norec_cases : forall f sa skw w w1 r, norec (w_old w) -> sb_setup f sa skw w = (w1, r) ->
+  (w1 = w \/ exists x, new_start_subbuild (subbuild_key f sa skw) w = (w1, x)) /\
+  (r = inl None \/ exists e, r = inr e).
+Proof.
+  intros f sa skw w w1 r Hok H. unfold sb_setup in H. cbv zeta in H.
+  apply bind_inv in H. destruct H as [[wa [u [E H]]]|[e [E Er]]].
+  2:{ unfold new_assert_no_subbuild, bind, get in E. destruct (cache_has_subbuild (w_new w) _); inversion E; subst.
+      split; [left; reflexivity | right; eauto]. }
+  assert (wa = w).
+  { unfold new_assert_no_subbuild, bind, get in E. destruct (cache_has_subbuild (w_new w) _); inversion E; reflexivity. }
+  subst wa. apply bind_inv in H. rewrite (sublookup_norec _ _ _ Hok) in H.
+  destruct H as [[wa [cached [E1 H]]]|[e [E1 _]]]; [|discriminate E1]. inversion E1; subst wa cached.
+  apply bind_inv in H. destruct H as [[wb [u' [E2 H]]]|[e [E2 Er]]].
+  - inversion H; subst. split; [right; eauto | left; reflexivity].
+  - subst r. split; [right; eauto | right; eauto].
+Qed.
+
+Lemma new_start_subbuild_fsbd : forall k w w1 x, new_start_subbuild k w = (w1, x) ->
+  w_fs w1 = w_fs w /\ w_bd w1 = w_bd w.
+Proof.
+  intros k w w1 x H. unfold new_start_subbuild, new_assert_no_subbuild, bind, get, modify in H.
+  destruct (cache_has_subbuild (w_new w) k); cbn in H; inversion H; subst; auto.
+Qed.
+
+Theorem ytry_norec : ytry_statement fs0 old cf P X.
+Proof.
+  intros t T n d c f sa skw w wc rt HPp Ncf HRb F3 Ew3 T3 G3 HY3 Hunc Hnd Et.
+  pose proof HRb as (HXb & _ & HFb).
+  (* without records the attempt is the claim *)
+  assert (Ecl : bf_claim (n :: d) w = (wc, rt)).
+  { unfold bf_try in Et. apply bind_inv in Et. rewrite (lookup_norec _ _ _ _ _ (FI_norec _ F3)) in Et.
+    destruct Et as [[wa [cached [E9 Et]]]|[e [E9 _]]]; [|discriminate E9]. inversion E9; subst wa cached.
+    cbn [bf_reuse] in Et. apply bind_inv in Et. destruct Et as [[wa [reused [E5 Et]]]|[e [E5 _]]]; [|discriminate E5].
+    inversion E5; subst wa reused. exact Et. }
+  destruct (bf_claim_frame _ _ _ _ Ecl HFb Hnd) as (Tc1 & Tc2 & Tc3).
+  split.
+  - exact (Y_target_step fs0 cf ((n :: d) :: T) w wc (n :: d) HXb (or_introl eq_refl) HY3 Tc1 Tc2 Tc3).
+  - intros e _. destruct (bf_claim_G fs0 old cf P X t (n :: d) HPp Ncf _ _ _ Ecl F3 Ew3 T3 G3) as (Fc & _ & Ewc & _).
+    split; [exact (proj1 Fc) | exact (EI_Z fs0 old cf P _ Ewc)].
+Qed.
+
+Theorem ysb_norec : ysb_statement fs0 old cf P X.
+Proof.
+  intros t T f sa skw w w1 r HR Fw Ew Tw Gw HY Es.
+  destruct (sb_setup_norec_cases _ _ _ _ _ _ (FI_norec _ Fw) Es) as [[->|[x Ex]] _]; [exact HY|].
+  destruct (new_start_subbuild_fsbd _ _ _ _ Ex) as [A1 A2].
+  apply (YI_ext fs0 cf w); assumption.
+Qed.
+
+(* every program *)
+Theorem run_Y : forall pr, AllTargets P pr ->
+  forall target subs T w w' res,
+    RX T w -> FI w -> EI w -> tcond target w -> gcond target w ->
+    (forall p, target = Some p -> In p T) -> YI w ->
+    run pr target subs w = (w', res) -> YI w'.
+Proof.
+  exact (run_Y_for fs0 old cf P X HypA HS Hwf0 norec Hnorec hit_norec sbhit_norec ytry_norec ysb_norec).
+Qed.
+
+End NorecY.
+
+Print Assumptions run_Y_for.
 Print Assumptions run_Y.
